@@ -19,5 +19,6 @@ theorem fix_field_path : @Generated.Funcs.fix_field_path = @Pinned.Funcs.fix_fie
 theorem field_header_disambiguated : @Generated.Funcs.field_header_disambiguated = @Pinned.Funcs.field_header_disambiguated := rfl
 theorem routing_param_disambiguated_field : @Generated.Funcs.routing_param_disambiguated_field = @Pinned.Funcs.routing_param_disambiguated_field := rfl
 theorem client_method_name : @Generated.Funcs.client_method_name = @Pinned.Funcs.client_method_name := rfl
+theorem sort_lines : @Generated.Funcs.sort_lines = @Pinned.Funcs.sort_lines := rfl
 
 end GapicModel.Bridge.Funcs
